@@ -118,18 +118,89 @@ theorem step_noheld (cfg : Cfg) (s : St) (e : Ev) (h : ∀ a, e ≠ .syncDone (.
     all_goals (first | rfl | simp [andThen])
   | advance dt => simp only [step]; split <;> exact hn
 
-/-- what a processed successful sync reply does to the assignment -/
-theorem syncOk_asg (cfg : Cfg) (s : St) (a : List (Nat × List Int)) :
-    (step cfg s (.syncDone (.ok a))).2 = [.badOp] ∨ NoHeld (step cfg s (.syncDone (.ok a))).1 ∨
-    (step cfg s (.syncDone (.ok a))).1.asg = flatten a := by
+/-- what a successful sync reply does: not enabled (nothing happens), or processed — and then the
+    group holds no consumer (it is stopping) or the assignment is the reply's -/
+theorem syncOk_asg {s : St} (h : SInv s) (cfg : Cfg) (a : List (Nat × List Int)) :
+    step cfg s (.syncDone (.ok a)) = (s, [.badOp]) ∨
+    ((step cfg s (.syncDone (.ok a))).2 ≠ [.badOp] ∧
+      (NoHeld (step cfg s (.syncDone (.ok a))).1 ∨ (step cfg s (.syncDone (.ok a))).1.asg = flatten a)) := by
   by_cases hj : (s.jpc != .sync) = true
   · left; simp only [step, hj, if_true]
-  · by_cases hs : s.stopping = true
-    · right; left
-      sorry
-    · right; right
-      have e : (step cfg s (.syncDone (.ok a))).1 = (startConsumers { (resetHeartbeat cfg s).1 with rejoinNeeded := false, jpc := .idle, rejoinD := false } a).1 := by
+  · right
+    by_cases hs : s.stopping = true
+    · have e : step cfg s (.syncDone (.ok a)) = ({ s with jpc := .idle, rejoinD := false }, []) := by
         simp only [step, hj, hs]; rfl
-      rw [e]; rfl
+      rw [e]
+      exact ⟨by simp, Or.inl (noheld_of_cons (h.stop_noheld hs) rfl)⟩
+    · have e : step cfg s (.syncDone (.ok a)) = andThen (resetHeartbeat cfg s) fun s =>
+          startConsumers { s with rejoinNeeded := false, jpc := .idle, rejoinD := false } a := by
+        simp only [step, hj, hs]; rfl
+      rw [e]
+      refine ⟨?_, Or.inr rfl⟩
+      intro hb
+      have hmem : Ob.badOp ∈ (andThen (resetHeartbeat cfg s) fun s =>
+          startConsumers { s with rejoinNeeded := false, jpc := .idle, rejoinD := false } a).2 := by rw [hb]; simp
+      rw [andThen_snd] at hmem
+      rcases List.mem_append.mp hmem with y | y
+      · unfold resetHeartbeat hbSchedule at y
+        split at y
+        · simp only [andThen_snd, addTimer_obs, List.mem_append, List.mem_map, List.mem_singleton] at y
+          rcases y with ⟨_, _, y⟩ | y <;> cases y
+        · simp only [addTimer_obs, List.mem_singleton] at y; cases y
+      · unfold startConsumers at y
+        obtain ⟨_, _, y⟩ := List.mem_map.mp y
+        cases y
+
+theorem nextAsg_other (asg : List (Nat × Int)) (e : Ev) (obs : List Ob) (sn : Snap) (h : ∀ a, e ≠ .syncDone (.ok a)) :
+    nextAsg asg ⟨e, obs, sn⟩ = asg := by
+  unfold nextAsg
+  cases e with
+  | syncDone r => cases r with
+    | ok a => exact absurd rfl (h a)
+    | err _ => rfl
+  | _ => rfl
+
+theorem fenced_step {s' : St} (h' : SInv s') (asg : List (Nat × Int)) (g : NoHeld s' ∨ asg = s'.asg) (e : Ev) (obs : List Ob) :
+    fencedStep asg ⟨e, obs, snap s'⟩ = true := by
+  unfold fencedStep snap
+  simp only [List.all_eq_true, Bool.or_eq_true, Bool.not_eq_eq_eq_not, Bool.not_true, Bool.and_eq_true, beq_iff_eq,
+    List.contains_eq_mem, decide_eq_true_eq]
+  intro c hc
+  by_cases hr : c.phase = .running
+  · right
+    have hh : c.held = true := (h'.held_running c hc).mpr hr
+    obtain ⟨a1, a2, a3⟩ := h'.held_cur c hc hh
+    rcases g with g | g
+    · rw [g c hc] at hh; cases hh
+    · exact ⟨⟨a1, a2⟩, by rw [g]; exact a3⟩
+  · left; simp [isRunning, hr]
+
+theorem fenced_runFrom (cfg : Cfg) (evs : List Ev) :
+    ∀ s asg, SInv s → (NoHeld s ∨ asg = s.asg) → fencedFrom asg (toMSteps (runFrom cfg s evs)) = true := by
+  induction evs with
+  | nil => intro s asg _ _; rfl
+  | cons e es ih =>
+    intro s asg h g
+    have h' := step_sinv h cfg e
+    simp only [runFrom, toMSteps, List.map_cons, fencedFrom, Bool.and_eq_true]
+    have key : NoHeld (step cfg s e).1 ∨ nextAsg asg ⟨e, (step cfg s e).2, snap (step cfg s e).1⟩ = (step cfg s e).1.asg := by
+      by_cases hsync : ∃ a, e = .syncDone (.ok a)
+      · obtain ⟨a, rfl⟩ := hsync
+        rcases syncOk_asg h cfg a with x | ⟨x1, x2⟩
+        · rw [x]; simp only [nextAsg, beq_self_eq_true, if_true]; exact g
+        · rcases x2 with y | y
+          · exact Or.inl y
+          · right
+            simp only [nextAsg]
+            rw [if_neg (by simpa using x1), y]
+      · have hns : ∀ a, e ≠ .syncDone (.ok a) := fun a ha => hsync ⟨a, ha⟩
+        rw [nextAsg_other asg e _ _ hns]
+        rcases g with g | g
+        · exact Or.inl (step_noheld cfg s e hns g)
+        · exact Or.inr (by rw [step_asg cfg s e hns]; exact g)
+    exact ⟨fenced_step h' _ key _ _, ih _ _ h' key⟩
+
+theorem fenced_run (cfg : Cfg) (evs : List Ev) : fenced (toMSteps (run cfg evs)) = true :=
+  fenced_runFrom cfg evs init [] sinv_init (Or.inl (by intro c hc; simp [init] at hc))
 
 end Afkak.Group
